@@ -80,7 +80,7 @@ theorem stepConn_fs (c : Conn) : StepFS c (stepConn c) := by
   | finished => exact List.suffix_refl _
   | handler r h =>
     simp only [stepConn]
-    cases hhp : handlerPoll (1000 + env.tr.input.length * 4 + (env.segs.map (·.2.length)).sum * 4 + r.sp.cap * 4) r h env with
+    cases hhp : handlerPoll (1000 + env.tr.input.length * 4 + (env.segs.map (·.2.length)).sum * 4 + r.sp.cap * 4 + scriptCost h) r h env with
     | mk r' x =>
       obtain ⟨h', e', res⟩ := x
       have hw := handlerPoll_fs _ _ _ _ hhp
